@@ -80,7 +80,7 @@ func c17Place(pos, long string, s1, s2 string, finalNL bool) string {
 	return t
 }
 
-var c17Cmds = []string{"generate segment", "format directive", "generate include pairs", "generate block", "compare", "generate definition", "generate definition repeated", "generate entry", "generate include", "generate include-except", "generate cmdline", "format", "renumber-tests", "update-copyright", "update"}
+var c17Cmds = []string{"generate segment", "format directive", "generate include pairs", "generate block", "compare", "generate definition", "generate definition repeated", "generate entry", "generate standard input", "generate include", "generate include-except", "generate cmdline", "format", "renumber-tests", "update-copyright", "update"}
 
 func C17(r *core.Run) {
 	dir := ""
@@ -149,6 +149,14 @@ func C17(r *core.Run) {
 			}
 			ok, why := matchAll(o.Out, "x"+long, "sentinelone", "sentineltwo")
 			return verdict(ok, false, true, why, len(o.Out))
+		case "generate standard input":
+			// the same through the real command, the text arriving on standard input
+			cli := core.RunCLI(r.Crs, wd, c17Place(c.Pos, "x"+long, "sentinelone", "sentineltwo", c.FinalNL), nil, "-d", wd, "regex", "generate", "-")
+			if cli.Exit != 0 {
+				return verdict(false, true, true, "", 0)
+			}
+			ok, why := matchAll(cli.Stdout, "x"+long, "sentinelone", "sentineltwo")
+			return verdict(ok, false, true, why, len(cli.Stdout))
 		case "generate include":
 			os.WriteFile(filepath.Join(wd, "regex-assembly/include/long.ra"), []byte(c17Place(c.Pos, "x"+long, "sentinelone", "sentineltwo", c.FinalNL)), 0o644)
 			o := root.Generate("before\n##!> include long\nafter\n")
